@@ -227,6 +227,19 @@ def measOp (p : Prog) (reg : List Ref) : R Prog :=
   | .error e => .error e
   | .ok (p1, _) => .ok p1
 
+/-- `Program.append(op, [r])` as `All.__or__` calls it -/
+def appendGate1 (p : Prog) (k : Int) (r : Ref) : R Prog :=
+  match p.append (.gate k) [r] [] with
+  | .error e => .error e
+  | .ok (q, _) => .ok q
+
+/-- `All(op) | reg` for a one-mode gate: the whole selection is tested first (`_test_regrefs`), then the gate is
+appended to every item separately; an empty selection is accepted and does nothing -/
+def allOp (p : Prog) (reg : List Ref) (k : Int) : R Prog :=
+  match p.testRegrefs reg with
+  | .error e => .error e
+  | .ok _ => reg.foldlM (fun q r => q.appendGate1 k r) p
+
 def lock (p : Prog) : Prog := { p with locked := true }
 
 /-- `Program(parent)` (the parent gets locked as a side effect) -/
@@ -443,6 +456,21 @@ def stateModesG (s : PS D) (modes : List Nat) : R (List (Nat × D)) :=
     | .error e => .error e
     | .ok data => .ok (labels.zip data)
 
+/-- insertion into an ascending list (`sorted(modes)`) -/
+def insertAsc (m : Nat) : List Nat → List Nat
+  | [] => [m]
+  | x :: xs => if m ≤ x then m :: x :: xs else x :: insertAsc m xs
+
+def sortAsc (l : List Nat) : List Nat := l.foldr insertAsc []
+
+/-- bosonic `state(modes)`: `modes` are mode indices; data and labels in ascending index order; no activity
+test (a deleted index returns its vacuum row), `IndexError` beyond the stored modes -/
+def stateModesB (s : PS D) (modes : List Nat) : R (List (Nat × D)) :=
+  let ms := sortAsc modes
+  match getAll s.rows ms with
+  | .error e => .error e
+  | .ok data => .ok (ms.zip data)
+
 def applyCmd (s : PS D) (c : Cmd) : R (PS D) :=
   match c.op with
   | .newModes _ => .ok (s.addMode c.reg.length)
@@ -494,6 +522,18 @@ def gaussOps (D : Type) [DataSem D] : BackendOps D (PS D) :=
 def bosOps (D : Type) [DataSem D] : BackendOps D (PS D) :=
   ⟨PS.begin, PS.reset, PS.bosRun, PS.getModes, PS.stateNone⟩
 
+/-- insertion of a dict key (ascending, no repetition) -/
+def insertKey (m : Nat) : List Nat → List Nat
+  | [] => [m]
+  | x :: xs => if m < x then m :: x :: xs else if m = x then x :: xs else x :: insertKey m xs
+
+/-- `_run_program` / `run_prog`: the keys of `samples_dict` (`Result.samples_dict`) after a segment — the indices
+(`r.ind`, not the positions) of every subsystem a measurement of the segment acted on -/
+def samplesKeys (cs : List Cmd) : List Nat :=
+  cs.foldl (fun ks c => match c.op with
+    | .measure => c.reg.foldl (fun ks m => insertKey m ks) ks
+    | _ => ks) []
+
 /-- history alphabet -/
 inductive Ev
   | new (n : Nat)
@@ -515,12 +555,18 @@ def Sys.init {D B : Type} (o : BackendOps D B) (n : Nat) : R (Sys B) :=
   | .error e => .error e
   | .ok p => .ok ⟨p, none, o.begin 0⟩
 
+/-- `BaseEngine._run`: the simulator state the program is run on -/
+def engineStart {D B : Type} (o : BackendOps D B) (s : Sys B) : R B :=
+  match s.prev with
+  | none =>
+    -- no previous segment: the back end gets `init_num_subsystems` contiguous modes, so a register that
+    -- starts with deleted subsystems is refused ("Register mismatch")
+    if s.prog.initRegRefs.all (·.active) then .ok (o.begin s.prog.initNum) else .error .runtime
+  | some pr => if s.prog.canFollow pr then .ok s.be else .error .runtime
+
 /-- `BaseEngine._run` for one program -/
 def engineRun {D B : Type} (o : BackendOps D B) (s : Sys B) : R (Sys B) :=
-  let start : R B := match s.prev with
-    | none => .ok (o.begin s.prog.initNum)
-    | some pr => if s.prog.canFollow pr then .ok s.be else .error .runtime
-  match start with
+  match engineStart o s with
   | .error e => .error e
   | .ok b0 =>
     let p := s.prog.lock
@@ -621,5 +667,12 @@ def aStep {D : Type} [DataSem D] (r : Rows D) : Ev → Option (Rows D)
     | none => none
   | .endProg => some r
   | .reset n => if n < 1 then none else some (List.replicate n (some DataSem.vac))
+
+/-- abstract run of a whole history: rejected events change nothing -/
+def aRunHist {D : Type} [DataSem D] (r : Rows D) : List Ev → Rows D
+  | [] => r
+  | e :: es => match aStep r e with
+    | some r' => aRunHist r' es
+    | none => aRunHist r es
 
 end SFV.Reg
